@@ -184,6 +184,9 @@ SILENT = [
     ("debug-prints", None),         # a print() inserted at the top of every function
     ("rename-all-locals", None),    # every local variable of every function renamed (parameters, globals, attributes untouched)
     ("hoist-tests", None),          # `if <test with a method call>:` becomes `_hN = <test>; if _hN:` in every function
+    ("invert-if-else", None),       # every `if c: A else: B` (no elif) becomes `if not c: B else: A`
+    ("guard-clauses", None),        # a trailing `if c: BODY` of a function/loop body becomes `if not c: return/continue` + BODY
+    ("idioms", None),               # `not a in b` -> `a not in b`; `k in d.keys()` -> `k in d`; methods of every class re-ordered alphabetically
 ]
 
 
@@ -313,6 +316,17 @@ def apply_silent(root, kind, spec):
                     src = ast.unparse(t)
                     compile(src, p, "exec")
                     open(p, "w").write(src)
+    elif kind in ("invert-if-else", "idioms", "guard-clauses"):
+        for dp, dn, fn in os.walk(base):
+            for f in fn:
+                if f.endswith(".py"):
+                    p = os.path.join(dp, f)
+                    t = ast.parse(open(p).read())
+                    t = {"invert-if-else": _InvertIf, "idioms": _Idioms, "guard-clauses": _GuardClauses}[kind]().visit(t)
+                    ast.fix_missing_locations(t)
+                    src = ast.unparse(t)
+                    compile(src, p, "exec")
+                    open(p, "w").write(src)
     elif kind == "rename-locals":
         for file, func, ren in spec:
             p = os.path.join(base, file)
@@ -323,6 +337,67 @@ def apply_silent(root, kind, spec):
                         n.id = ren[n.id]
             src = ast.unparse(t)
             open(p, "w").write(src)
+
+
+class _InvertIf(ast.NodeTransformer):
+    def visit_If(self, node):
+        self.generic_visit(node)
+        if node.orelse and not (len(node.orelse) == 1 and isinstance(node.orelse[0], ast.If)):
+            t = node.test
+            nt = t.operand if isinstance(t, ast.UnaryOp) and isinstance(t.op, ast.Not) else ast.UnaryOp(op=ast.Not(), operand=t)
+            node.test, node.body, node.orelse = nt, node.orelse, node.body
+        return node
+
+
+class _GuardClauses(ast.NodeTransformer):
+    @staticmethod
+    def _neg(t):
+        return t.operand if isinstance(t, ast.UnaryOp) and isinstance(t.op, ast.Not) else ast.UnaryOp(op=ast.Not(), operand=t)
+
+    def _rewrite(self, body, exit_stmt):
+        if body and isinstance(body[-1], ast.If) and not body[-1].orelse and len(body[-1].body) >= 2:
+            last = body[-1]
+            return body[:-1] + [ast.If(test=self._neg(last.test), body=[exit_stmt], orelse=[])] + last.body
+        return body
+
+    def visit_FunctionDef(self, node):
+        self.generic_visit(node)
+        # only where falling off the end returns None anyway
+        if not any(isinstance(n, (ast.Yield, ast.YieldFrom)) for n in ast.walk(node)):
+            node.body = self._rewrite(node.body, ast.Return(value=None))
+        return node
+
+    def visit_For(self, node):
+        self.generic_visit(node)
+        if not node.orelse:
+            node.body = self._rewrite(node.body, ast.Continue())
+        return node
+
+
+class _Idioms(ast.NodeTransformer):
+    def visit_UnaryOp(self, node):
+        self.generic_visit(node)
+        if isinstance(node.op, ast.Not) and isinstance(node.operand, ast.Compare) and len(node.operand.ops) == 1 \
+                and isinstance(node.operand.ops[0], ast.In):
+            node.operand.ops = [ast.NotIn()]
+            return node.operand
+        return node
+
+    def visit_Compare(self, node):
+        self.generic_visit(node)
+        if len(node.ops) == 1 and isinstance(node.ops[0], (ast.In, ast.NotIn)):
+            c = node.comparators[0]
+            if isinstance(c, ast.Call) and isinstance(c.func, ast.Attribute) and c.func.attr == "keys" and not c.args:
+                node.comparators = [c.func.value]
+        return node
+
+    def visit_ClassDef(self, node):
+        self.generic_visit(node)
+        plain = [i for i, st in enumerate(node.body) if isinstance(st, ast.FunctionDef) and not st.decorator_list]
+        srt = sorted((node.body[i] for i in plain), key=lambda f: f.name)
+        for i, f in zip(plain, srt):
+            node.body[i] = f
+        return node
 
 
 _HOIST_SKIP = {"isinstance", "len", "hasattr", "issubclass", "type", "callable", "getattr", "id"}
